@@ -1,6 +1,6 @@
 import CircusProofs.Core.SigKill
 /-!
-The signal invariant through every coroutine body and the interpreter: `exec_si : RecSI (exec n)`.
+The signal invariant through every coroutine body and the interpreter: `exec_si : RecSI J (exec n)`.
 The bodies that hand a pid to `kill_process` show that the pid has its `Process` object (it is listed,
 or was listed when the sequential reload began, or has just been spawned); the others are
 compositions (`unfold; sg`).
@@ -9,25 +9,26 @@ set_option linter.unusedSimpArgs false
 set_option linter.unusedVariables false
 namespace Circus.Core
 
+variable {J : JMode}
+
 /-! ### bodies that call `kill_process` -/
 
-@[aesop safe apply (rule_sets := [Sg])]
-theorem killProcesses_si {rec : Rec} (hrec : RecSI rec) (u : Nat) (sig gt : Option Nat) (wt : Waiter) :
-    Pres SI (killProcesses rec u sig gt wt) := by
+theorem killProcesses_si {rec : Rec} (hrec : RecSI J rec) (u : Nat) (sig gt : Option Nat) (wt : Waiter)
+    (hsig : J.isSome = true → sig ≠ some 9) : Pres (SI J) (killProcesses rec u sig gt wt) := by
   intro s h
   unfold killProcesses
   simp only [bind]
   have hq := squiet_activeProcs u s
-  refine awaitMulti_kill_si hrec u sig gt _ .ignore wt rfl _ (activeProcs_s siLeafS u s h) ?_
+  refine awaitMulti_kill_si hrec u sig gt _ .ignore wt rfl _ (activeProcs_s (siLeafS0 J) u s h) ?_ hsig
   intro q hq'
   exact hq.ext.obj q (listed_hasObj h.pid (activeProcs_subset u s q hq'))
 
 @[aesop safe apply (rule_sets := [Sg])]
-theorem removeExpired_si {rec : Rec} (hrec : RecSI rec) (u : Nat) (wt : Waiter) : Pres SI (removeExpired rec u wt) := by
+theorem removeExpired_si {rec : Rec} (hrec : RecSI J rec) (u : Nat) (wt : Waiter) : Pres (SI J) (removeExpired rec u wt) := by
   intro s h
   unfold removeExpired
   simp only [bind]
-  refine awaitMulti_kill_si hrec u none none _ _ wt rfl s h ?_
+  refine awaitMulti_kill_si hrec u none none _ _ wt rfl s h ?_ (fun _ => by simp)
   intro q hq'
   exact listed_hasObj h.pid (List.mem_filter.mp hq').1
 
@@ -75,7 +76,7 @@ theorem mem_sortByStartedDesc {o : PObj} {l : List PObj} (h : o ∈ sortByStarte
     · exact List.mem_cons_of_mem _ (ih h)
 
 @[aesop safe apply (rule_sets := [Sg])]
-theorem manageTail_si {rec : Rec} (hrec : RecSI rec) (u : Nat) (wt : Waiter) : Pres SI (manageTail rec u wt) := by
+theorem manageTail_si {rec : Rec} (hrec : RecSI J rec) (u : Nat) (wt : Waiter) : Pres (SI J) (manageTail rec u wt) := by
   intro s h
   rw [manageTail_eq]
   simp only [bind]
@@ -91,18 +92,18 @@ theorem manageTail_si {rec : Rec} (hrec : RecSI rec) (u : Nat) (wt : Waiter) : P
       have h1 := mem_sortByStartedDesc (List.mem_of_mem_drop ho)
       obtain ⟨pid, _, hf⟩ := List.mem_filterMap.mp h1
       exact List.mem_map.mpr ⟨o, List.mem_of_find?_eq_some hf, rfl⟩
-    have key := forIn_inv (fun (r : List Nat) s' => SI s' ∧ (∀ o ∈ extra, HasObj s' o.pid) ∧ ∀ q ∈ r, HasObj s' q)
+    have key := forIn_inv (fun (r : List Nat) s' => SI J s' ∧ (∀ o ∈ extra, HasObj s' o.pid) ∧ ∀ q ∈ r, HasObj s' q)
       extra (mtBody u) (by
         intro o ho r s' ⟨hs', he', hr'⟩
         unfold mtBody
         simp only [bind]
         have hq1 := squiet_procStatus o.pid s'
-        have h1 := procStatus_s siLeafS o.pid s' hs'
+        have h1 := procStatus_s (siLeafS0 J) o.pid s' hs'
         by_cases hd : isDead (procStatus o.pid s').1 = true
         · erw [if_pos hd]
           have hq2 := squiet_reapProcess u o.pid none (procStatus o.pid s').2
           have e := hq1.trans hq2
-          exact ⟨reapProcess_s siLeafS u o.pid none _ h1, fun o' ho' => e.ext.obj _ (he' o' ho'),
+          exact ⟨reapProcess_s (siLeafS0 J) u o.pid none _ h1, fun o' ho' => e.ext.obj _ (he' o' ho'),
             fun q hq => e.ext.obj _ (hr' q hq)⟩
         · erw [if_neg hd]
           refine ⟨h1, fun o' ho' => hq1.ext.obj _ (he' o' ho'), ?_⟩
@@ -111,7 +112,7 @@ theorem manageTail_si {rec : Rec} (hrec : RecSI rec) (u : Nat) (wt : Waiter) : P
           · exact hq1.ext.obj _ (hr' q hq)
           · simp only [List.mem_singleton] at hq
             rw [hq]; exact hq1.ext.obj _ (he' o ho)) [] s ⟨h, hextra, fun q hq => by cases hq⟩
-    exact awaitMulti_kill_si hrec u none none _ _ wt rfl _ key.1 key.2.2
+    exact awaitMulti_kill_si hrec u none none _ _ wt rfl _ key.1 key.2.2 (fun _ => by simp)
   · erw [if_neg hgt]
     exact deliver_si hrec wt _ s h
 
@@ -127,7 +128,7 @@ theorem spawnAdopt_hasObj (u wid : Nat) (s : State) (pid : Nat) (h : (spawnAdopt
     simp
 
 @[aesop safe apply (rule_sets := [Sg])]
-theorem spawnTry_si {rec : Rec} (hrec : RecSI rec) (u n : Nat) : Pres SI (spawnTry rec u n) := by
+theorem spawnTry_si {rec : Rec} (hrec : RecSI J rec) (u n : Nat) : Pres (SI J) (spawnTry rec u n) := by
   induction n with
   | zero => unfold spawnTry; sg
   | succ n ih =>
@@ -135,7 +136,7 @@ theorem spawnTry_si {rec : Rec} (hrec : RecSI rec) (u n : Nat) : Pres SI (spawnT
     unfold spawnTry
     simp only [bind]
     simp only [show (getW u s).2 = s from rfl, show ∀ t : State, (nowMs t).2 = t from fun _ => rfl]
-    have h0 := usedWids_s siLeafS u s h
+    have h0 := usedWids_s (siLeafS0 J) u s h
     generalize usedWids u s = r0 at h0 ⊢
     obtain ⟨used, s0⟩ := r0
     cases hw : nextWid (getW u s).1.np used with
@@ -152,7 +153,7 @@ theorem spawnTry_si {rec : Rec} (hrec : RecSI rec) (u n : Nat) : Pres SI (spawnT
         dsimp only
         have ho1 : HasObj s1 pid := ho pid rfl
         have hq2 := squiet_callHook u "after_spawn" s1
-        have h2 := callHook_s siLeafS u "after_spawn" s1 h1
+        have h2 := callHook_s (siLeafS0 J) u "after_spawn" s1 h1
         generalize callHook u "after_spawn" s1 = r2 at hq2 h2 ⊢
         obtain ⟨rv, s2⟩ := r2
         have ho2 : HasObj s2 pid := hq2.ext.obj pid ho1
@@ -165,13 +166,13 @@ theorem spawnTry_si {rec : Rec} (hrec : RecSI rec) (u n : Nat) : Pres SI (spawnT
             exact ho2
           generalize newTop [TopCb.popProc u pid] s2 = r3 at h3 ho3 ⊢
           obtain ⟨tid, s3⟩ := r3
-          have h4 := hrec.run (.call (.killProcess u pid none none) (.top tid)) s3 h3 ho3
+          have h4 := hrec.run (.call (.killProcess u pid none none) (.top tid)) s3 h3 ⟨ho3, fun _ => by simp⟩
           exact armTop_si tid _ h4
         · erw [if_neg hr]
-          exact notify_s siLeafS u "spawn" (some pid) "-" s2 h2
+          exact notify_s (siLeafS0 J) u "spawn" (some pid) "-" s2 h2
 
 @[aesop safe apply (rule_sets := [Sg])]
-theorem spawnProcess_si {rec : Rec} (hrec : RecSI rec) (u : Nat) : Pres SI (spawnProcess rec u) := by
+theorem spawnProcess_si {rec : Rec} (hrec : RecSI J rec) (u : Nat) : Pres (SI J) (spawnProcess rec u) := by
   unfold spawnProcess; sg
 
 /-- the start of a sequential reload: the active workers all have their `Process` object -/
@@ -204,40 +205,40 @@ theorem reloadW_eq (rec : Rec) (wuid : Nat) (graceful sequential : Bool) (wt : W
         | some e => deliver rec wt (excVal e)
         | none => await rec (.manageProcesses wuid) (.reloadTail wuid) wt) := rfl
 
-theorem reloadSeqStart_si {rec : Rec} (hrec : RecSI rec) (u : Nat) (wt : Waiter) : Pres SI (reloadSeqStart rec u wt) := by
+theorem reloadSeqStart_si {rec : Rec} (hrec : RecSI J rec) (u : Nat) (wt : Waiter) : Pres (SI J) (reloadSeqStart rec u wt) := by
   intro s h
   unfold reloadSeqStart
   simp only [bind]
   have hq := squiet_activeProcs u s
-  refine hrec.run _ _ (activeProcs_s siLeafS u s h) ⟨?_, fun p hp => by cases hp⟩
+  refine hrec.run _ _ (activeProcs_s (siLeafS0 J) u s h) ⟨?_, fun p hp => by cases hp⟩
   intro q hq'
   exact hq.ext.obj q (listed_hasObj h.pid (activeProcs_subset u s q hq'))
 
 @[aesop safe apply (rule_sets := [Sg])]
-theorem reloadW_si {rec : Rec} (hrec : RecSI rec) (u : Nat) (g sq : Bool) (wt : Waiter) : Pres SI (reloadW rec u g sq wt) := by
+theorem reloadW_si {rec : Rec} (hrec : RecSI J rec) (u : Nat) (g sq : Bool) (wt : Waiter) : Pres (SI J) (reloadW rec u g sq wt) := by
   have h1 := reloadSeqStart_si hrec u wt
   rw [reloadW_eq]
   aesop (add safe apply h1) (rule_sets := [Sg]) (config := { terminal := true, useDefaultSimpSet := false, useSimpAll := false, maxRuleApplications := 3000 })
 
-theorem reloadSeqNext_si {rec : Rec} (hrec : RecSI rec) (u : Nat) (rest : List Nat) (wt : Waiter) (s : State) (h : SI s)
-    (hr : ∀ q ∈ rest, HasObj s q) : SI (reloadSeqNext rec u rest wt s).2 := by
+theorem reloadSeqNext_si {rec : Rec} (hrec : RecSI J rec) (u : Nat) (rest : List Nat) (wt : Waiter) (s : State) (h : SI J s)
+    (hr : ∀ q ∈ rest, HasObj s q) : SI J (reloadSeqNext rec u rest wt s).2 := by
   unfold reloadSeqNext
   cases rest with
   | nil => exact hrec.res_free _ _ _ rfl s h
   | cons p rest' =>
-    exact await_si_ctx hrec _ _ wt s h (hr p List.mem_cons_self) (fun q hq => hr q (List.mem_cons_of_mem _ hq))
+    exact await_si_ctx hrec _ _ wt s h ⟨hr p List.mem_cons_self, fun _ => by simp⟩ (fun q hq => hr q (List.mem_cons_of_mem _ hq))
       (fun q hq => by cases hq)
 
-theorem spawnProcess_hasObj {rec : Rec} (hrec : RecSI rec) (u : Nat) (s : State) (p : Nat) (h : HasObj s p) :
+theorem spawnProcess_hasObj {rec : Rec} (hrec : RecSI J rec) (u : Nat) (s : State) (p : Nat) (h : HasObj s p) :
     HasObj (spawnProcess rec u s).2 p :=
   spawnProcess_pres (hasObjSpec p).toSpecCore rec (fun t s' h' => hrec.obj t s' p h') u s h
 
-theorem reloadSeqAfterKill_si {rec : Rec} (hrec : RecSI rec) (u pid : Nat) (rest : List Nat) (wt : Waiter) (s : State) (h : SI s)
-    (hr : ∀ q ∈ rest, HasObj s q) : SI (reloadSeqAfterKill rec u pid rest wt s).2 := by
+theorem reloadSeqAfterKill_si {rec : Rec} (hrec : RecSI J rec) (u pid : Nat) (rest : List Nat) (wt : Waiter) (s : State) (h : SI J s)
+    (hr : ∀ q ∈ rest, HasObj s q) : SI J (reloadSeqAfterKill rec u pid rest wt s).2 := by
   unfold reloadSeqAfterKill
   simp only [bind]
   have hq1 := squiet_reapProcess u pid none s
-  have h1 := reapProcess_s siLeafS u pid none s h
+  have h1 := reapProcess_s (siLeafS0 J) u pid none s h
   have h2 := spawnProcess_si hrec u _ h1
   have hr2 : ∀ q ∈ rest, HasObj (spawnProcess rec u (reapProcess u pid none s).2).2 q :=
     fun q hq => spawnProcess_hasObj hrec u _ q (hq1.ext.obj q (hr q hq))
@@ -254,101 +255,102 @@ theorem reloadSeqAfterKill_si {rec : Rec} (hrec : RecSI rec) (u pid : Nat) (rest
 attribute [aesop safe apply (rule_sets := [Sg])] stopCore_ofE
 
 @[aesop safe apply (rule_sets := [Sg])]
-theorem stopW_si {rec : Rec} (hrec : RecSI rec) (u : Nat) (close : Bool) (wt : Waiter) : Pres SI (stopW rec u close wt) := by
+theorem stopW_si {rec : Rec} (hrec : RecSI J rec) (u : Nat) (close : Bool) (wt : Waiter) : Pres (SI J) (stopW rec u close wt) := by
   unfold stopW; sg
 @[aesop safe apply (rule_sets := [Sg])]
-theorem stopAfterKill_si {rec : Rec} (hrec : RecSI rec) (u : Nat) (close : Bool) (wt : Waiter) : Pres SI (stopAfterKill rec u close wt) := by
+theorem stopAfterKill_si {rec : Rec} (hrec : RecSI J rec) (u : Nat) (close : Bool) (wt : Waiter) : Pres (SI J) (stopAfterKill rec u close wt) := by
   unfold stopAfterKill; sg
 @[aesop safe apply (rule_sets := [Sg])]
-theorem spawnLoop_si {rec : Rec} (hrec : RecSI rec) (u rem : Nat) (wt : Waiter) : Pres SI (spawnLoop rec u rem wt) := by
+theorem spawnLoop_si {rec : Rec} (hrec : RecSI J rec) (u rem : Nat) (wt : Waiter) : Pres (SI J) (spawnLoop rec u rem wt) := by
   unfold spawnLoop; sg
 @[aesop safe apply (rule_sets := [Sg])]
-theorem spawnProcesses_si {rec : Rec} (hrec : RecSI rec) (u : Nat) (wt : Waiter) : Pres SI (spawnProcesses rec u wt) := by
+theorem spawnProcesses_si {rec : Rec} (hrec : RecSI J rec) (u : Nat) (wt : Waiter) : Pres (SI J) (spawnProcesses rec u wt) := by
   unfold spawnProcesses; sg
 @[aesop safe apply (rule_sets := [Sg])]
-theorem popKilled_si {rec : Rec} (hrec : RecSI rec) (u : Nat) (tk : List Nat) (v : Val) (wt : Waiter) : Pres SI (popKilled rec u tk v wt) := by
+theorem popKilled_si {rec : Rec} (hrec : RecSI J rec) (u : Nat) (tk : List Nat) (v : Val) (wt : Waiter) : Pres (SI J) (popKilled rec u tk v wt) := by
   unfold popKilled; sg
 @[aesop safe apply (rule_sets := [Sg])]
-theorem manageAfterExpire_si {rec : Rec} (hrec : RecSI rec) (u : Nat) (wt : Waiter) : Pres SI (manageAfterExpire rec u wt) := by
+theorem manageAfterExpire_si {rec : Rec} (hrec : RecSI J rec) (u : Nat) (wt : Waiter) : Pres (SI J) (manageAfterExpire rec u wt) := by
   unfold manageAfterExpire; sg
 @[aesop safe apply (rule_sets := [Sg])]
-theorem manageProcesses_si {rec : Rec} (hrec : RecSI rec) (u : Nat) (wt : Waiter) : Pres SI (manageProcesses rec u wt) := by
+theorem manageProcesses_si {rec : Rec} (hrec : RecSI J rec) (u : Nat) (wt : Waiter) : Pres (SI J) (manageProcesses rec u wt) := by
   unfold manageProcesses; sg
 @[aesop safe apply (rule_sets := [Sg])]
-theorem startW_si {rec : Rec} (hrec : RecSI rec) (u : Nat) (wt : Waiter) : Pres SI (startW rec u wt) := by
+theorem startW_si {rec : Rec} (hrec : RecSI J rec) (u : Nat) (wt : Waiter) : Pres (SI J) (startW rec u wt) := by
   unfold startW; sg
 @[aesop safe apply (rule_sets := [Sg])]
-theorem startAfterSpawn_si {rec : Rec} (hrec : RecSI rec) (u : Nat) (wt : Waiter) : Pres SI (startAfterSpawn rec u wt) := by
+theorem startAfterSpawn_si {rec : Rec} (hrec : RecSI J rec) (u : Nat) (wt : Waiter) : Pres (SI J) (startAfterSpawn rec u wt) := by
   unfold startAfterSpawn; sg
 @[aesop safe apply (rule_sets := [Sg])]
-theorem setNumprocesses_si {rec : Rec} (hrec : RecSI rec) (u : Nat) (n : Int) (wt : Waiter) : Pres SI (setNumprocesses rec u n wt) := by
+theorem setNumprocesses_si {rec : Rec} (hrec : RecSI J rec) (u : Nat) (n : Int) (wt : Waiter) : Pres (SI J) (setNumprocesses rec u n wt) := by
   unfold setNumprocesses; sg
 @[aesop safe apply (rule_sets := [Sg])]
-theorem doAction_si {rec : Rec} (hrec : RecSI rec) (u : Nat) (n : Int) (wt : Waiter) : Pres SI (doAction rec u n wt) := by
+theorem doAction_si {rec : Rec} (hrec : RecSI J rec) (u : Nat) (n : Int) (wt : Waiter) : Pres (SI J) (doAction rec u n wt) := by
   unfold doAction; sg
 @[aesop safe apply (rule_sets := [Sg])]
-theorem pubInfo_si {rec : Rec} (hrec : RecSI rec) (u : Nat) (b : List Nat) (wt : Waiter) : Pres SI (pubInfo rec u b wt) := by
+theorem pubInfo_si {rec : Rec} (hrec : RecSI J rec) (u : Nat) (b : List Nat) (wt : Waiter) : Pres (SI J) (pubInfo rec u b wt) := by
   unfold pubInfo; sg
 @[aesop safe apply (rule_sets := [Sg])]
-theorem arbStartNext_si {rec : Rec} (hrec : RecSI rec) (ws : List Nat) (wt : Waiter) : Pres SI (arbStartNext rec ws wt) := by
+theorem arbStartNext_si {rec : Rec} (hrec : RecSI J rec) (ws : List Nat) (wt : Waiter) : Pres (SI J) (arbStartNext rec ws wt) := by
   unfold arbStartNext; sg
 @[aesop safe apply (rule_sets := [Sg])]
-theorem arbStartAfterStart_si {rec : Rec} (hrec : RecSI rec) (ws : List Nat) (wt : Waiter) : Pres SI (arbStartAfterStart rec ws wt) := by
+theorem arbStartAfterStart_si {rec : Rec} (hrec : RecSI J rec) (ws : List Nat) (wt : Waiter) : Pres (SI J) (arbStartAfterStart rec ws wt) := by
   unfold arbStartAfterStart; sg
 @[aesop safe apply (rule_sets := [Sg])]
-theorem arbStopTail_si {rec : Rec} (hrec : RecSI rec) (wt : Waiter) : Pres SI (arbStopTail rec wt) := by
+theorem arbStopTail_si {rec : Rec} (hrec : RecSI J rec) (wt : Waiter) : Pres (SI J) (arbStopTail rec wt) := by
   unfold arbStopTail; sg
 @[aesop safe apply (rule_sets := [Sg])]
-theorem arbStop_si {rec : Rec} (hrec : RecSI rec) (wt : Waiter) : Pres SI (arbStop rec wt) := by
+theorem arbStop_si {rec : Rec} (hrec : RecSI J rec) (wt : Waiter) : Pres (SI J) (arbStop rec wt) := by
   unfold arbStop; sg
 @[aesop safe apply (rule_sets := [Sg])]
-theorem arbRestartInside_si {rec : Rec} (hrec : RecSI rec) (wt : Waiter) : Pres SI (arbRestartInside rec wt) := by
+theorem arbRestartInside_si {rec : Rec} (hrec : RecSI J rec) (wt : Waiter) : Pres (SI J) (arbRestartInside rec wt) := by
   unfold arbRestartInside; sg
 @[aesop safe apply (rule_sets := [Sg])]
-theorem arbReloadNext_si {rec : Rec} (hrec : RecSI rec) (ws : List Nat) (g sq : Bool) (wt : Waiter) : Pres SI (arbReloadNext rec ws g sq wt) := by
+theorem arbReloadNext_si {rec : Rec} (hrec : RecSI J rec) (ws : List Nat) (g sq : Bool) (wt : Waiter) : Pres (SI J) (arbReloadNext rec ws g sq wt) := by
   unfold arbReloadNext; sg
 @[aesop safe apply (rule_sets := [Sg])]
-theorem arbReloadAfter_si {rec : Rec} (hrec : RecSI rec) (ws : List Nat) (g sq : Bool) (wt : Waiter) : Pres SI (arbReloadAfter rec ws g sq wt) := by
+theorem arbReloadAfter_si {rec : Rec} (hrec : RecSI J rec) (ws : List Nat) (g sq : Bool) (wt : Waiter) : Pres (SI J) (arbReloadAfter rec ws g sq wt) := by
   unfold arbReloadAfter; sg
 @[aesop safe apply (rule_sets := [Sg])]
-theorem manageWatchers_si {rec : Rec} (hrec : RecSI rec) (wt : Waiter) : Pres SI (manageWatchers rec wt) := by
+theorem manageWatchers_si {rec : Rec} (hrec : RecSI J rec) (wt : Waiter) : Pres (SI J) (manageWatchers rec wt) := by
   unfold manageWatchers; sg
 @[aesop safe apply (rule_sets := [Sg])]
-theorem rmWatcher_si {rec : Rec} (hrec : RecSI rec) (uid : Nat) (ns : Bool) (wt : Waiter) : Pres SI (rmWatcher rec uid ns wt) := by
+theorem rmWatcher_si {rec : Rec} (hrec : RecSI J rec) (uid : Nat) (ns : Bool) (wt : Waiter) : Pres (SI J) (rmWatcher rec uid ns wt) := by
   unfold rmWatcher; sg
 @[aesop safe apply (rule_sets := [Sg])]
-theorem manageWatchersTail_si {rec : Rec} (hrec : RecSI rec) (need : Bool) (wt : Waiter) : Pres SI (manageWatchersTail rec need wt) := by
+theorem manageWatchersTail_si {rec : Rec} (hrec : RecSI J rec) (need : Bool) (wt : Waiter) : Pres (SI J) (manageWatchersTail rec need wt) := by
   unfold manageWatchersTail; sg
 
 /-! ### the interpreter -/
 
-theorem runCall_si {rec : Rec} (hrec : RecSI rec) (c : Call) (wt : Waiter) (s : State) (h : SI s) (ht : CallOk s c) :
-    SI (runCall rec c wt s).2 := by
+theorem runCall_si {rec : Rec} (hrec : RecSI J rec) (c : Call) (wt : Waiter) (s : State) (h : SI J s) (ht : CallOk J s c) :
+    SI J (runCall rec c wt s).2 := by
   unfold runCall
   split
   all_goals first
     | exact killProcess_si hrec _ _ _ _ wt s h ht
-    | exact awaitMulti_kill_si hrec _ _ _ _ .ignore wt rfl s h ht
-    | (refine (?_ : Pres SI _) s h; sg)
+    | exact awaitMulti_kill_si hrec _ _ _ _ .ignore wt rfl s h ht.1 ht.2
+    | exact killProcesses_si hrec _ _ _ wt ht s h
+    | (refine (?_ : Pres (SI J) _) s h; sg)
 
-theorem runResume_si {rec : Rec} (hrec : RecSI rec) (k : Kont) (v : Val) (wt : Waiter) (s : State) (h : SI s)
-    (ht : TaskOk s (.resume k v wt)) : SI (runResume rec k v wt s).2 := by
+theorem runResume_si {rec : Rec} (hrec : RecSI J rec) (k : Kont) (v : Val) (wt : Waiter) (s : State) (h : SI J s)
+    (ht : TaskOk J s (.resume k v wt)) : SI J (runResume rec k v wt s).2 := by
   unfold runResume
   split
   all_goals first
     | exact killLoop_si hrec _ _ _ _ _ wt s h (LoopOk.le ht.1) (LoopOk.obj ht.1) (LoopOk.began ht.1) (LoopOk.stopping ht.1) (ht.2 _ rfl)
     | exact reloadSeqAfterKill_si hrec _ _ _ wt s h ht.1
     | exact reloadSeqNext_si hrec _ _ wt s h ht.1
-    | (refine (?_ : Pres SI _) s h; sg)
+    | (refine (?_ : Pres (SI J) _) s h; sg)
 
 /-- **the interpreter keeps the signal invariant** for every task that is `TaskOk`, at any fuel -/
-theorem exec_si : ∀ n, RecSI (exec n) := by
+theorem exec_si : ∀ n, RecSI J (exec n) := by
   intro n
   induction n with
   | zero =>
     refine ⟨fun t s h _ => ?_, fun t s p hp => exec_hasObj 0 t s p hp⟩
     unfold exec
-    exact emit_si .outOfFuel rfl s h
+    exact emit_si .outOfFuel rfl rfl s h
   | succ n ih =>
     refine ⟨?_, fun t s p hp => exec_hasObj _ t s p hp⟩
     intro t s h ht
